@@ -224,10 +224,15 @@ def _sweep_years(ctx, spell):
             ys = list(range(2000 + off, 2000 + off + 28))
             extra = [1900, 2000, 2100, 2400, 0, -1, -4, -100, -400, 1, 9999,
                      10000, 99999, -99999, 2015, 2020]
+        # century years whatever weekday they start on, and years beyond the
+        # integers a float holds exactly
+        extra += [1700, 1800, 2200, 2300, 2500, 2600, 3000][
+            ctx.seed % 3::3] + [10 ** 16 + 4 + ctx.seed % 7, 2 ** 53 + 3,
+                                -10 ** 17 - 1]
         return ys, extra
     base = 1996 + (ctx.seed % 5)
     ys = list(range(base, base + 8))
-    extra = [0, -1, -7, 1, 9999, 10000, -400]
+    extra = [0, -1, -7, 1, 9999, 10000, -400, 10 ** 16 + 3 + ctx.seed % 7]
     if ctx.tier == "thorough":
         extra += list(range(-10, 11)) + [99999, -99999]
     return ys, extra
@@ -331,6 +336,18 @@ def workload(ctx, repo):
         # TimePoint level
         n = 150 if ctx.tier == "quick" else 600
         pts = [gen.rand_tp(rng, mode) for _ in range(n)]
+        # one instant on two or three different local days (offsets 26 h
+        # apart; 24:00 against the next day's 00:00), converted one after
+        # the other: each must show its own local day
+        for _ in range(n // 3):
+            y = gen.rand_year(rng, -500, 9000)
+            inst = gen.rand_rd(rng, mode, y, bias=0.5) * 86400 + \
+                rng.choice((0, 3600, 43200, 82800, rng.randrange(86400)))
+            rep = rng.choice(gen.REPS)
+            for off in ((14, 0), (-12, 0), (0, 0)):
+                pts.append(gen.tp_from_instant(
+                    rng, mode, inst, rep=rep if rng.random() < 0.7 else None,
+                    offset=off))
         case = {"op": "points", "mode": spell, "points": pts}
         ctx.case = case
         run_case(ctx, repo, case)
